@@ -74,7 +74,8 @@ def emit(rep, prog, world_stats=None):
             known_hit.append((v, known_keys[v["key"]]))
         else:
             new_viol.append(v)
-    vdir = os.path.join(VERIF, "evidence", "violations")
+    evdir = os.environ.get("KRP_EVIDENCE_DIR") or os.path.join(VERIF, "evidence")
+    vdir = os.path.join(evdir, "violations")
     os.makedirs(vdir, exist_ok=True)
     for fn in os.listdir(vdir):
         if fn.startswith(rep.prop + "-"):
@@ -138,8 +139,8 @@ def emit(rep, prog, world_stats=None):
         "wall_s": round(time.time() - rep.t0, 3),
         "violations": len(new_viol),
     }
-    os.makedirs(os.path.join(VERIF, "evidence"), exist_ok=True)
-    with open(os.path.join(VERIF, "evidence", rep.prop + ".json"), "w") as f:
+    os.makedirs(evdir, exist_ok=True)
+    with open(os.path.join(evdir, rep.prop + ".json"), "w") as f:
         json.dump(ev, f, indent=1, default=str)
     for l in lines:
         print(l)
